@@ -461,6 +461,7 @@ def _parse_line_v33(raw, system):
     for data in raw['branch']:
         param = {
             'u': data[13],
+            'Sn': system.config.mva,  # branch data are in per unit on the system base
             'bus1': data[0], 'bus2': data[1],
             'r': data[3], 'x': data[4], 'b': data[5],
             'g1': data[9], 'b1': data[10], 'g2': data[11], 'b2': data[12],
